@@ -76,13 +76,32 @@ fn culprit_of(rel: &Relation) -> Option<String> {
     found.into_iter().next()
 }
 
+/// "duplicate WITH table name": the same definition emitted twice, or two different nodes that received the same name
+pub fn duplicate_cte_class(rendered: &str) -> &'static str {
+    let same_definition = sqlparser::parser::Parser::parse_sql(&sqlparser::dialect::PostgreSqlDialect {}, rendered)
+        .ok()
+        .and_then(|st| match st.into_iter().next() {
+            Some(sqlparser::ast::Statement::Query(q)) => q.with.map(|w| {
+                let defs: Vec<(String, String)> = w.cte_tables.iter().map(|c| (c.alias.name.value.clone(), c.query.to_string())).collect();
+                defs.iter().enumerate().any(|(i, (n, b))| defs.iter().skip(i + 1).any(|(n2, b2)| n == n2 && b == b2))
+            }),
+            _ => None,
+        })
+        .unwrap_or(false);
+    if same_definition {
+        "duplicate WITH table name (one node of the relation is emitted twice)"
+    } else {
+        "duplicate WITH table name (two nodes of the relation got the same 4-character content-hash name)"
+    }
+}
+
 fn shape(feats: &[&'static str]) -> &'static str {
     if feats.contains(&"alias_shadows_column") {
         return if feats.contains(&"join_using") { "alias_shadows_column+join_using" } else { "alias_shadows_column" };
     }
     for f in [
-        "cte_redefined_in_subquery", "cte_shadows_table", "set_operation", "join_using", "join_full", "join_right", "join_left", "join_cross", "join_inner", "group_by_expr", "having",
-        "count_distinct", "sum_distinct", "expr_of_aggs", "agg_of_expr", "distinct", "group_by", "aggregate", "derived_table", "cte",
+        "cte_redefined_in_subquery", "cte_shadows_table", "cte_diamond", "set_operation", "join_using", "join_full", "join_right", "join_left", "join_cross", "join_inner", "group_by_expr", "having",
+        "count_distinct", "sum_distinct", "avg_distinct", "expr_of_aggs", "agg_of_expr", "distinct", "group_by", "aggregate", "derived_table", "cte",
         "select_star", "limit", "order_by",
     ] {
         if feats.contains(&f) {
@@ -159,7 +178,7 @@ pub fn check_case_with(cat: &Catalog, g: &GenQuery, rep: &mut Report, prefix: &s
             let e_class = if e.contains("no such column") {
                 "no such column".to_string()
             } else if e.contains("duplicate WITH table name") {
-                "duplicate WITH table name (two nodes of the relation got the same 4-character content-hash name)".to_string()
+                duplicate_cte_class(&rendered).to_string()
             } else {
                 normalise_message(&e)
             };
